@@ -635,6 +635,7 @@ func formEval(c *ctx, vline string, fd formDesc, ops []setOp, dup, bad bool, cla
 			bl := "bal " + common.EncToks(p.toks)
 			if repr {
 				r.Line(bl, common.B(balancedToks(p.toks)))
+				c.skelLine("form.Data.TokenReader", p.toks)
 			}
 			if !balancedToks(p.toks) {
 				r.Fail("well-formed", "form.Data/TokenReader/unbalanced", append(lines, r.Prop+" "+bl), describe())
@@ -774,6 +775,7 @@ func formEval(c *ctx, vline string, fd formDesc, ops []setOp, dup, bad bool, cla
 	bl := "bal " + common.EncToks(subToks)
 	if repr {
 		r.Line(bl, common.B(balancedToks(subToks)))
+		c.skelLine("form.Data.TokenReader", subToks)
 	}
 	if !balancedToks(subToks) {
 		r.Fail("well-formed", "form.Data/Submit/unbalanced", append(lines, r.Prop+" "+bl), describe())
